@@ -338,6 +338,9 @@ func Run(t *testing.T, sp Spec) (res *Result) {
 								}()
 							}
 							id, data, err := wf.Execute(ctx, c.Input)
+							if s.Draining() {
+								return // released by the teardown of a run that had already been declared stuck
+							}
 							// What is still alive / deployed when Execute has returned? Sampled by the scheduler at the
 							// next quiescent point, before anything else is released: goroutines that were just
 							// exiting have gone by then, everything else that is left is a genuine leftover.
